@@ -265,12 +265,19 @@ impl Exec {
                 self.s.ctl(json!({"ctl": "release_all"}));
                 let v = self.s.compact(0);
                 assert!(v.as_ref().map(|v| v["ok"].as_bool().unwrap_or(false)).unwrap_or(false), "compaction failed: {v:?}");
-                // reclaim of retired directories is asynchronous: wait for it
+                // reclaim of retired directories is asynchronous: wait until every numeric
+                // directory on disk is named by the live list again (nothing is in flight here)
                 let t0 = std::time::Instant::now();
-                while self.s.shard_data_dir(0).join(".reclaim").exists()
-                    && std::fs::read_dir(self.s.shard_data_dir(0).join(".reclaim")).map(|d| d.count()).unwrap_or(0) > 0
-                    && t0.elapsed().as_millis() < 3000
-                {
+                loop {
+                    let live: std::collections::BTreeSet<String> = self
+                        .s
+                        .ctl(json!({"ctl": "live", "shard": 0}))
+                        .and_then(|v| v["live"].as_array().map(|a| a.iter().filter_map(|x| x.as_str().map(|s| s.to_string())).collect()))
+                        .unwrap_or_default();
+                    let reclaim_busy = std::fs::read_dir(self.s.shard_data_dir(0).join(".reclaim")).map(|d| d.count()).unwrap_or(0) > 0;
+                    if (self.dir_labels().is_subset(&live) && !reclaim_busy) || t0.elapsed().as_millis() > 5000 {
+                        break;
+                    }
                     std::thread::sleep(std::time::Duration::from_millis(5));
                 }
                 arm_all(&mut self.s);
